@@ -198,6 +198,11 @@ def build(ctx, cfg):
     kwargs = {}
     if cfg.get('precision') is not None:
         kwargs['global_time_precision'] = cfg['precision']
+    if cfg.get('emit_step'):
+        # rows only every emit_step time units (symbolic in [2, emit_step])
+        run.emit_step = ctx.int('es', 2, cfg['emit_step'])
+        kwargs['emit_step'] = run.emit_step
+        ctx.goal('emit_step greater than 1')
     run.g0 = 0
     if cfg.get('g0'):
         # the engine starts at a symbolic global time (part of a larger,
@@ -208,6 +213,13 @@ def build(ctx, cfg):
     topology = {n: {'s': ('s',)} for n in names}
     if cfg.get('twoports'):
         topology = {n: {'s': ('s',), 's2': ('s',)} for n in names}
+    run.xrow = lambda row, n: row['s']['x_' + n]
+    if cfg.get('emptypath'):
+        # the port is the store that holds the process ('_path': ()); only z
+        # is re-mapped, x_<n> and y_<n> keep their own names
+        topology = {n: {'s': {'_path': (), 'z': ('s', 'z')}} for n in names}
+        run.xrow = lambda row, n: row['x_' + n]
+        ctx.goal('port wired with an empty _path')
     processes = dict(run.procs)
     if cfg.get('nested') and N >= 2:
         # the last process lives in a compartment and reaches the shared
